@@ -12,7 +12,7 @@
 //! one-line results (tree shape or error kind + span, and the whole span table)
 //! are compared: see `../c06/parse_diff.rs`.
 //!
-//! usage: c06 run <seed> <quick|thorough> [--parse-strict]
+//! usage: c06 run <seed> <quick|thorough> [--parse-strict] [--cases N] [--focus typeerrors]
 //!        c06 replay <json input>
 //!        c06 parse-replay <json string: the source text>
 //!        c06 worker gen <seed> <from> <n> | c06 worker corpus <from> <n> | c06 worker boundary <from> <n>
@@ -831,10 +831,15 @@ fn main() {
         Some("run") => {
             let seed: u64 = args.get(2).and_then(|s| s.parse().ok()).unwrap_or(1);
             let thorough = args.get(3).map(|s| s == "thorough").unwrap_or(false);
-            let total: u64 = std::env::var("C06_CASES")
-                .ok()
+            let flag = |name: &str| args.iter().position(|a| a == name).and_then(|i| args.get(i + 1)).cloned();
+            let total: u64 = flag("--cases")
+                .or_else(|| std::env::var("C06_CASES").ok())
                 .and_then(|s| s.parse().ok())
                 .unwrap_or(if thorough { 300_000 } else { 3_000 });
+            if let Some(f) = flag("--focus") {
+                // search mode: the random stream draws from the named classes only; inherited by the workers
+                unsafe { std::env::set_var("C06_FOCUS", f) };
+            }
             let jobs = std::thread::available_parallelism().map(|n| n.get()).unwrap_or(4).min(16);
             if args.iter().any(|a| a == "--parse-strict") {
                 // inherited by the workers; no other thread exists yet
